@@ -223,8 +223,13 @@ def _sign_pythonrsa(ctx, R, T):
             buf = dt[2] if dt[0] == "attr" else None
             good = buf is not None
             ubody = [s for s in upd.node.body if not (isinstance(s, ast.Expr) and isinstance(s.value, ast.Constant))]
-            good = good and len(ubody) == 1 and isinstance(ubody[0], ast.AugAssign) and isinstance(ubody[0].op, ast.Add) and varkey(ubody[0].target) == upd.params[0] + "." + str(buf) \
+            bk = upd.params[0] + "." + str(buf)
+            aug = len(ubody) == 1 and isinstance(ubody[0], ast.AugAssign) and isinstance(ubody[0].op, ast.Add) and varkey(ubody[0].target) == bk \
                 and isinstance(ubody[0].value, ast.Name) and ubody[0].value.id == upd.params[1]
+            # `buf = buf + msg` (the buffer starts as the immutable b"", checked below: the same as `+=`)
+            plain = len(ubody) == 1 and isinstance(ubody[0], ast.Assign) and len(ubody[0].targets) == 1 and varkey(ubody[0].targets[0]) == bk and isinstance(ubody[0].value, ast.BinOp) \
+                and isinstance(ubody[0].value.op, ast.Add) and varkey(ubody[0].value.left) == bk and isinstance(ubody[0].value.right, ast.Name) and ubody[0].value.right.id == upd.params[1]
+            good = good and (aug or plain)
             ibody = [s for s in init.node.body if isinstance(s, ast.Assign)]
             good = good and any(varkey(s.targets[0]) == init.params[0] + "." + str(buf) and isinstance(s.value, ast.Constant) and s.value.value == b"" for s in ibody)
         R.check(good, "SIGN-pythonrsa", acc.qualname, "the registered 'hash' returns exactly the bytes it was fed (the token is not hashed again)",
@@ -240,6 +245,8 @@ def _sign_pycryptodome(ctx, R, T):
     rn = _one_return(ctx, f)
     t = T.term(f, rn, rn.ast.value)
     loc = f.loc(rn.ast)
+    if t[0] == "call" and t[1] == ".sign" and len(t[2]) == 1 and len(t) > 3 and len(t[3]) == 1 and t[3][0][0] == "msg_hash":
+        t = (t[0], t[1], (t[2][0], t[3][0][1]), ())            # PKCS115_SigScheme.sign(msg_hash): the parameter passed by keyword
     ok = t[0] == "call" and t[1] == ".sign" and len(t[2]) == 2 and t[2][0][0] == "call" and str(t[2][0][1]).endswith("pkcs1_15.new")
     R.check(ok, "SIGN-pycryptodome", f.qualname + "|call", "pkcs1_15.new(key).sign(hash-object)", "Sign returns %s" % show(t)[:200], loc)
     if not ok:
